@@ -87,13 +87,6 @@ Proof. intros Hd Ha Hc. apply amemb_In. unfold disabled. apply in_flat_map. exis
 End Deps.
 
 (* ---------------------------------------------------------------- edges of the final dependency set *)
-(* facts about the cycle set that the code itself relies on (the first is its assertion); decidable,
-   evaluated on every case of the correspondence *)
-Definition procs_follow (g : graph) (cy : list N) : bool :=
-  forallb (fun d => (negb (incyc cy (ProcAll (d_id d) false)) || incyc cy (SaveAll (d_parent d))) &&
-                    (negb (incyc cy (ProcAll (d_id d) true)) || incyc cy (DelAll (d_parent d)))) (g_deps g).
-Definition cyc_ok (g : graph) (cy : list N) : bool := cyc_shape cy && paired g cy && procs_follow g cy.
-
 Section Edges.
 Variables (g : graph) (cy : list N).
 Notation T := std_tables.
